@@ -66,6 +66,30 @@ claimed = {
          "(2) processIncoming clears the stored CONNECT's will flag on DISCONNECT and returns errDisconnect, and changes the flag for no other packet type. (3) service.stop hands the will on (onPublish) exactly once iff it is the first call, the service is a server and the will flag is still set, and never otherwise; "
          "on the first call it also deletes a clean session from the store. Not covered: that every abnormal end reaches stop, and that buffered packets (a final DISCONNECT) are processed before end-of-stream is acted on (peekMessageSize is not under contract; seeded change C09-2 is missed for that reason)."),
    design='DESIGN.md §4 C09', technique='data invariant + ghost-log contracts; VCs over go/ssa discharged by z3/cvc5 (govc)'),
+ 'C10': dict(level='proof',
+   text=("Contract-based deductive proof of the per-call mechanism (core; the composition over connect/disconnect histories is argued, not machine-checked). Against a ghost view of the session store (client identifier -> session): "
+         "getSession with CleanSession=1 (or an empty client identifier, which is made clean) answers SessionPresent=0 with a freshly created session stored under that identifier; with CleanSession=0 it answers SessionPresent=1 exactly when the store held a session for that identifier "
+         "and then continues with that very session object, otherwise creates a fresh one; in both cases the session carries the will invariant of C09. service.stop deletes the session from the store on the first teardown iff the stored CONNECT was clean, and never otherwise. "
+         "The store interface is keyed by the identifier alone (New/Get/Del change the ghost view at that key only - enforced by the frame check), Session.AddTopic/RemoveTopic change exactly one key of the session's subscription map. "
+         "Not covered: the re-activation loop in service.start (map iteration is outside the generator's subset), the MemProvider implementation behind the trusted store interface, and that the session stores the granted rather than the requested QoS."),
+   design='DESIGN.md §4 C10', technique='ghost-view contracts with frame checking; VCs over go/ssa discharged by z3/cvc5 (govc)'),
+ 'C06': dict(level='proof',
+   text=("Contract-based deductive proof of the topic-level scanner only (the one part of the topic store within the generator's subset): nextTopicLevel returns the bytes before the first '/' as the level and the bytes after it as the rest, "
+         "never a level containing '/', rejects '#' or '+' that do not occupy a whole level (a defect found here - a wildcard followed by '$' was accepted - was fixed), accepts '#' only as the last level and refuses a leading '$'; the Manager wrappers pass requests and answers through unchanged. "
+         "NOT covered, and not claimed: the recursive trie operations (sinsert, sremove, smatch, rinsert, rremove, rmatch, matchQos, equal) - they iterate over Go maps and recurse, which the generator does not model - so the matching semantics of MQTT 4.7 itself is undecided by this check. "
+         "A known deviation pinned by the repository's own test (an empty first level is returned as '+') is outside the obligations."),
+   design='DESIGN.md §4 C06', technique='contracts + loop invariants over go/ssa, z3/cvc5 (govc); scanner only'),
+ 'C01': dict(level='proof',
+   text=("Contract-based deductive proof of the fan-out step only (core): onPublish calls every subscriber the topic store returned exactly once, in the store's order (ghost call counter, loop invariant), and at each call the message carries the QoS the store computed for that subscriber whenever that value is a valid QoS; "
+         "it counts as one hand-over of exactly that message object. That the store returns exactly the matching subscriptions with min(publish QoS, granted QoS) is the trusted interface contract of the topic store (the trie is outside the generator's subset, see C06); "
+         "that a subscription is in the store from SUBACK to UNSUBACK is C07's ordering obligation for UNSUBSCRIBE, and unverified for SUBSCRIBE. Topic and payload are untouched by construction (only the flag byte and header fields are in the frame of onPublish and of the callbacks)."),
+   design='DESIGN.md §4 C01', technique='ghost counters, loop invariant and call-site obligations over go/ssa, z3/cvc5 (govc)'),
+ 'C07': dict(level='proof',
+   text=("Contract-based deductive proof for UNSUBSCRIBE and for the codec and helper functions of SUBSCRIBE; the SUBSCRIBE handler itself is NOT verified. processUnsubscribe hands every filter of the request to the topic store, in request order (ghost log of the store calls), before the UNSUBACK is written, "
+         "and writes exactly one UNSUBACK with the request's packet identifier unless the write fails. SubackMessage.AddReturnCodes appends exactly the given codes in order and fails only for a code outside {0,1,2,0x80}; the filter lists of SUBSCRIBE/UNSUBSCRIBE decode to exactly the filters on the wire, in order (C03/C04 contracts, part of this check); "
+         "the store wrapper returns min(requested, MaxQosAllowed) or 0x80 with an error. processSubscribe is under a TRUSTED contract (three nested loops whose freshly allocated byte arrays the generator's loop havoc cannot frame; DESIGN.md §10): "
+         "a partial check of it found that a rejected filter made the request vanish without SUBACK - fixed - but 'one SUBACK, codes in request order, subscription effective before the SUBACK' is not machine-checked."),
+   design='DESIGN.md §4 C07', technique='ghost-log contracts and call-site obligations over go/ssa, z3/cvc5 (govc); SUBSCRIBE handler trusted'),
  'C04': dict(level='proof',
    text=("Contract-based deductive proof: every index, slice (also against len, not only cap: 'strictslice'), nil, conversion and overflow obligation in every Decode path is generated with no annotation and discharged; "
          "contracts add 0<=n<=len(src), every returned field lies within src[:n], loop variants (termination), and acceptance of every well-formed packet (for SUBSCRIBE/UNSUBSCRIBE against a caller-chosen ghost entry chain). Unbounded in input length and topic count."),
